@@ -231,11 +231,25 @@ class Exec(Engine):
                 if o.kind != 'next':
                     nxt.append(o)
                     continue
+                if self.interrupts and getattr(o.st, 'ki', 0) < self.interrupts and not isinstance(s, (ast.FunctionDef, ast.Pass)):
+                    nxt.append(self.interrupt_edge(o.st, s))
                 nxt.extend(self.exec_stmt(s, o.st))
             outs = nxt
             if len(outs) > 400:
                 raise Unsupported('path explosion (>400 live paths)')
         return outs
+
+    def interrupt_edge(self, st: State, s):
+        """C14: a KeyboardInterrupt delivered to the calling thread at this statement boundary."""
+        k = st.fork()
+        k.ki = getattr(st, 'ki', 0) + 1
+        k.ki_points = list(getattr(st, 'ki_points', [])) + [getattr(s, 'lineno', 0)]
+        self.ki_points_seen.add(getattr(s, 'lineno', 0))
+        k.heap['@INTERRUPTED'] = SV(BOOL, z3.BoolVal(True))
+        k.heap['@INTERRUPTS'] = SV(INT, z3.IntVal(k.ki))
+        exc = self.new_exc(k, 'KeyboardInterrupt')
+        k.ki_exc = exc
+        return Outcome('raise', k, {'exc': exc, 'interrupt': getattr(s, 'lineno', 0)})
 
     def exec_stmt(self, s, st: State):
         m = getattr(self, 'st_' + type(s).__name__, None)
@@ -679,6 +693,10 @@ class Exec(Engine):
         finally:
             self.handler_stack.pop()
         outs = []
+        if self.interrupts and any('KeyboardInterrupt' in ks for ks in kinds):
+            ints = [o for o in body_outs if o.kind == 'raise' and o.val.get('interrupt') is not None]
+            if len(ints) > 1:
+                body_outs = [o for o in body_outs if o not in ints] + [self.join_interrupts(st, ints)]
         for o in body_outs:
             if o.kind == 'raise':
                 outs += self.dispatch_handlers(s, o, kinds)
@@ -696,6 +714,68 @@ class Exec(Engine):
                         fin.append(fo)
             outs = fin
         return outs
+
+    def join_interrupts(self, entry: State, ints):
+        """All interrupt edges of one try body reach the same handler: instead of running the handler once per edge,
+        run it once from a joined state -- everything some edge's path wrote is havocked, and a candidate from the
+        function's pool is assumed iff it is *proved* in every edge's state (handler-entry invariant, Houdini style)."""
+        names, paths = set(), set()
+        for o in ints:
+            for fi, f in enumerate(o.st.frames[:len(entry.frames)]):
+                for nm, v in f.items():
+                    old = entry.frames[fi].get(nm)
+                    if old is None or (old is not v and not self.same_repr(old, v)):
+                        names.add(nm)
+            for p, v in o.st.heap.items():
+                old = entry.heap.get(p, self.lazy_entry.get(p))
+                if old is None or (old is not v and not self.same_repr(old, v)):
+                    paths.add(p)
+        pool = self.candidate_pool()
+        hk = f'{self.cur_fkey}#join@' + ''.join(getattr(entry, 'trail', []))
+        labmap = {c.label(): c for c in pool}
+        if self.houdini_fixed:
+            keep = set(self.houdini.get(hk, []))
+        else:
+            keep = None
+            for o in ints:
+                forms = self.eval_candidates(o.st, pool, {})
+                ok = set()
+                for l, f in forms.items():
+                    if keep is not None and l not in keep:
+                        continue
+                    if self.check_valid(o.st, f)[0] == 'discharged':
+                        ok.add(l)
+                keep = ok if keep is None else (keep & ok)
+            self.houdini[hk] = sorted(keep or ())
+        if not self.trial:
+            for o in ints:
+                forms = self.eval_candidates(o.st, pool, {})
+                for l in sorted(keep or ()):
+                    if l in forms:
+                        self.vc(o.st.fork(), forms[l], name=f'handler.entry[{l}]', kind='inv-init', serves=labmap[l].serves,
+                                detail=f'at interrupt point line {o.val.get("interrupt")}')
+        j = entry.fork()
+        # locals first bound inside the try body exist in the joined state with unconstrained values
+        for o in ints:
+            for fi, f in enumerate(o.st.frames[:len(j.frames)]):
+                for nm, v in f.items():
+                    if nm not in j.frames[fi] and isinstance(v, SV) and v.t.k not in ('closure', 'lambda', 'thread'):
+                        j.frames[fi][nm] = v
+            for p, v in o.st.heap.items():
+                if p not in j.heap:
+                    j.heap[p] = v
+        self.havoc_loop(j, names, paths)
+        forms = self.eval_candidates(j, pool, {})
+        for l in sorted(keep or ()):
+            if l in forms:
+                j.assume(forms[l])
+        j.ki = max(getattr(o.st, 'ki', 0) for o in ints)
+        j.ki_points = sorted({str(p) for o in ints for p in getattr(o.st, 'ki_points', [])})
+        j.trail = list(getattr(entry, 'trail', [])) + [f'KI{j.ki}']
+        j.heap['@INTERRUPTED'] = SV(BOOL, z3.BoolVal(True))
+        j.heap['@INTERRUPTS'] = SV(INT, z3.IntVal(j.ki))
+        self.handler_entry_invs.setdefault(self.cur_fkey, []).append(dict(edges=len(ints), kept=sorted(keep or ())))
+        return Outcome('raise', j, {'exc': self.new_exc(j, 'KeyboardInterrupt'), 'interrupt': -1})
 
     def handler_kinds(self, h):
         if h.type is None:
@@ -1014,6 +1094,18 @@ class Exec(Engine):
                     line=line, serves=cl.serves or self.safety_serves())
         pre_heap = dict(st.heap)
         outs = []
+        if self.interrupts and self.interrupt_during and getattr(st, 'ki', 0) < self.interrupts and not c.pure:
+            # scope S2: the interrupt is delivered while the callee is executing -- it may have done any part of its work
+            k = st.fork()
+            k.ki = getattr(st, 'ki', 0) + 1
+            k.ki_points = list(getattr(st, 'ki_points', [])) + [f'{line}:inside {cname}']
+            self.ki_points_seen.add(f'{line}:inside {cname}')
+            self.havoc(k, self.frame_paths(c, binds, k))
+            k.heap['@INTERRUPTED'] = SV(BOOL, z3.BoolVal(True))
+            k.heap['@INTERRUPTS'] = SV(INT, z3.IntVal(k.ki))
+            exc0 = self.new_exc(k, 'KeyboardInterrupt')
+            k.ki_exc = exc0
+            outs.append(Outcome('raise', k, {'exc': exc0, 'interrupt': line}))
         # exceptional exits declared by the callee
         for kind, clauses in c.raises.items():
             ex_st = st.fork()
@@ -1082,7 +1174,18 @@ class Exec(Engine):
         binds = dict(self.entry_binds)
         binds['value'] = v
         n = self.yield_counter = getattr(self, 'yield_counter', 0) + 1
+        if self.interrupts and getattr(st, 'ki', 0) > 0 and v.t.k == 'tuple' and len(v.t.args) == 2:
+            second = SV(v.t.args[1], v.z[1])
+            try:
+                as_exc = self.coerce(second, U('Exc')) if second.t == U('Exc') else None
+            except Unsupported:
+                as_exc = None
+            if as_exc is not None:
+                self.vc(st, as_exc.z != st.ki_exc.z, name='interrupt[the delivered KeyboardInterrupt is never yielded as a task failure]',
+                        kind='yield', line=line, serves=('C14',), detail=f'interrupt points {getattr(st, "ki_points", [])}')
         for cl in self.cur.yields:
+            if self.interrupts and getattr(st, 'ki', 0) > 0:
+                break      # after the interrupt only the C14 obligations apply to this path
             if self.active(cl):
                 self.vc(st, self.eval_clause(st, cl, binds), name=f'yield.ensures[{cl.label()}]', kind='yield',
                         line=line, serves=cl.serves or self.safety_serves())
@@ -1243,6 +1346,7 @@ class Exec(Engine):
                 st.set(nm, SV(v.t, self.ctx.fresh(v.t, nm)))
         if '*' in paths:
             paths = set(st.heap)
+        paths = {p for p in paths if p not in ('@INTERRUPTED', '@INTERRUPTS')} if not isinstance(paths, list) else paths
         self.havoc(st, [p for p in paths if p in st.heap or p.split('.')[0] in self.R.records])
         if getattr(st, 'yields_in_loop', False):
             pass
@@ -1685,6 +1789,8 @@ class Exec(Engine):
         self.cur, self.cur_fkey = c, fkey
         self.cur_module = fkey.split(':')[0]
         self.loop_counter = 0
+        self.ki_points_seen = set()
+        self.handler_entry_invs = {}
         self.lazy_entry = {}
         self.canary = []
         self.loop_ordinals = {}
@@ -1702,7 +1808,15 @@ class Exec(Engine):
         self.call_lines = sorted({x.lineno for x in ast.walk(fn) if isinstance(x, (ast.Call, ast.For))})
         self.ret_local = self.find_ret_local(fn)
         self.ret_type = c.returns
+        ib = self.interrupt_budget.get(fkey, 0)
+        self.interrupts, self.interrupt_during = (ib if isinstance(ib, int) else ib[0]), (not isinstance(ib, int) and ib[1] == 'during')
         st, binds = self.initial_state(c)
+        st.assume(self.ctx.func('INTERRUPT_MODE', [], BOOL)() == z3.BoolVal(bool(self.interrupts))) if 'INTERRUPT_MODE' in self.R.funcs else None
+        if self.interrupts:
+            st.heap['@INTERRUPTED'] = SV(BOOL, z3.BoolVal(False))
+            st.heap['@INTERRUPTS'] = SV(INT, z3.IntVal(0))
+            st.old['@INTERRUPTED'] = st.heap['@INTERRUPTED']
+            st.old['@INTERRUPTS'] = st.heap['@INTERRUPTS']
         self.entry_binds = binds
         # parameter defaults declared in the real signature are not re-checked; the contract names them
         for cl in c.requires:
@@ -1723,6 +1837,10 @@ class Exec(Engine):
         return info
 
     def check_exit(self, c: Contract, st: State, binds, val: SV):
+        if self.interrupts and getattr(st, 'ki', 0) > 0:
+            self.vc(st, z3.BoolVal(False), name='interrupt[normal return after a KeyboardInterrupt was delivered]', kind='ensures',
+                    serves=('C14',), detail=f'interrupt points {getattr(st, "ki_points", [])}')
+            return
         if not self.trial and self.ctx.finite:
             self.canary.append(self.check_valid(st, z3.BoolVal(False))[0])
         rt = parse_type(c.returns)
@@ -1790,6 +1908,19 @@ class Exec(Engine):
         if not self.trial and self.ctx.finite:
             self.canary.append(self.check_valid(st, z3.BoolVal(False))[0])
         exc = info['exc']
+        if self.interrupts and getattr(st, 'ki', 0) > 0:
+            self.vc(st, self.is_kind(exc.z, 'KeyboardInterrupt'), name='interrupt[run leaves with KeyboardInterrupt, never another exception]',
+                    kind='raises', serves=('C14',), detail=f'interrupt points {getattr(st, "ki_points", [])}')
+            b2 = dict(binds)
+            for nm in c.cand_locals:
+                if st.has(nm):
+                    b2[nm] = st.get(nm)
+            for cl in getattr(c, 'interrupt_exit', []):
+                try:
+                    self.vc(st, self.eval_clause(st, cl, b2), name=f'interrupt.exit[{cl.label()}]', kind='raises', serves=('C14',))
+                except SpecError:
+                    pass
+            return
         matched_any = False
         rest = st
         for kind, clauses in c.raises.items():
